@@ -549,10 +549,10 @@ Definition C10_scan_spec (ls : list jline) (os : list (dobs * option (list sbloc
          (kf_trailing_blank bs = true /\ exists bsT n, scan_doc (prep_sel true ls) = Closed bsT /\
             variant_spec rtrim (prep_sel true ls) bsT D got (firstn n rest))))).
 
-Theorem judge_lines_sound stream listed ls os tag :
-  judge_lines stream listed ls os = Some (v_ok tag) -> C10_scan_spec ls os.
+Theorem judge_lines0_sound stream listed ls os tag :
+  judge_lines0 stream listed ls os = Some (v_ok tag) -> C10_scan_spec ls os.
 Proof.
-  unfold judge_lines. destruct os as [|[D [got|]] rest]; try discriminate.
+  unfold judge_lines0. destruct os as [|[D [got|]] rest]; try discriminate.
   destruct (String.eqb (o_src D) (unlines ls)) eqn:Es; cbn [negb]; [|discriminate]. apply String.eqb_eq in Es.
   destruct (scan_doc (prep ls)) as [bs|bs i s r b] eqn:Esc.
   - destruct (kf_trailing_blank bs) eqn:Ek; cbn [negb].
@@ -600,12 +600,12 @@ Proof.
     destruct (table_check (last_is_cmt (d_main (jrun (elems_of norm bs)))) (o_main D) (o_main M)); destruct nsr; discriminate.
 Qed.
 
-Theorem judge_lines_kf_sound stream listed ls os :
-  judge_lines stream listed ls os = Some (v_kf "fence-info-trailing-blank") ->
+Theorem judge_lines0_kf_sound stream listed ls os :
+  judge_lines0 stream listed ls os = Some (v_kf "fence-info-trailing-blank") ->
   exists D got rest bs n, os = (D, Some got) :: rest /\ scan_doc (prep ls) = Closed bs /\
     kf_trailing_blank bs = true /\ variant_spec keep_tag (prep ls) bs D got (skipn n rest).
 Proof.
-  unfold judge_lines. destruct os as [|[D [got|]] rest]; try discriminate.
+  unfold judge_lines0. destruct os as [|[D [got|]] rest]; try discriminate.
   destruct (String.eqb (o_src D) (unlines ls)); cbn [negb]; [|discriminate].
   destruct (scan_doc (prep ls)) as [bs|bs i s r b] eqn:Esc.
   - destruct (kf_trailing_blank bs) eqn:Ek; cbn [negb].
@@ -622,6 +622,33 @@ Proof.
         -- intros H. injection H as ->. exfalso. exact (judge_variant_never_kf _ _ _ _ _ _ _ EvS).
     + intros H. exfalso. exact (judge_variant_never_kf _ _ _ _ _ _ _ H).
   - destruct (line_blocks_anomaly bs); [discriminate|]. destruct (is_perr (o_res D)); discriminate.
+Qed.
+
+(* the class quote-swallows-after-whitespace-line only turns would-be violations into an advisory verdict *)
+Lemma judge_lines_inv stream listed ls os v :
+  judge_lines stream listed ls os = Some v ->
+  judge_lines0 stream listed ls os = Some v \/
+  (v = v_adv "finding-quote-swallows-after-whitespace-line" /\ quote_ws_doc ls = true /\
+   exists w, judge_lines0 stream listed ls os = Some w /\ is_violation w = true).
+Proof.
+  unfold judge_lines. destruct (judge_lines0 stream listed ls os) as [w|]; [|discriminate].
+  destruct (is_violation w) eqn:Ev; cbn [andb]; [|intros H; left; exact H].
+  destruct (quote_ws_doc ls) eqn:Eq; [|intros H; left; exact H].
+  intros H. injection H as <-. right. split; [reflexivity|]. split; [reflexivity|]. exists w. split; [reflexivity|exact Ev].
+Qed.
+
+Theorem judge_lines_sound stream listed ls os tag :
+  judge_lines stream listed ls os = Some (v_ok tag) -> C10_scan_spec ls os.
+Proof.
+  intros H. apply judge_lines_inv in H as [H|(H & _)]; [eapply judge_lines0_sound, H|discriminate].
+Qed.
+
+Theorem judge_lines_kf_sound stream listed ls os :
+  judge_lines stream listed ls os = Some (v_kf "fence-info-trailing-blank") ->
+  exists D got rest bs n, os = (D, Some got) :: rest /\ scan_doc (prep ls) = Closed bs /\
+    kf_trailing_blank bs = true /\ variant_spec keep_tag (prep ls) bs D got (skipn n rest).
+Proof.
+  intros H. apply judge_lines_inv in H as [H|(H & _)]; [eapply judge_lines0_kf_sound, H|discriminate].
 Qed.
 
 (* ------------------------------------------------------------------------ finding fence-info-trailing-blank *)
